@@ -16,7 +16,9 @@ EXTENDS Naturals, Sequences, FiniteSets, TLC
 CONSTANTS Limits, Sizes, Entries
 
 Predecoders == {"predecodeResp", "predecodeLogout"}
-Pres == {"raw", "deflate1", "deflate6", "deflate9"}
+\* stored / huffman: streams of stored blocks only / Huffman-only coding; lead: the natural-size document in one valid
+\* DEFLATE stream per achievable first octet (multi-block streams cut by a flush, stored blocks with free padding bits)
+Pres == {"raw", "deflate1", "deflate6", "deflate9", "stored", "huffman", "lead"}
 Cfgs == [limit : Limits]
 Inputs == [entry : Entries, pres : Pres, size : Sizes, good : BOOLEAN]
 
@@ -29,6 +31,8 @@ Feasible(cfg, in) == (in.size \in {"lim-1", "lim", "lim+1"} => (EffKiB(cfg, in) 
                      /\ (in.size \in {"x100", "x1000"} => EffKiB(cfg, in) <= 5120)
                      /\ (in.size = "x1000" => EffKiB(cfg, in) < 5120)
                      /\ (in.pres = "raw" => in.size \in {"natural", "lim-1", "lim", "lim+1"})
+                     /\ (in.pres = "lead" => in.size = "natural")
+                     /\ (in.pres \in {"stored", "huffman"} => in.size \in {"natural", "lim", "lim+1"})
 Over(cfg, in) == CASE in.size = "natural" -> EffKiB(cfg, in) < 3
                    [] in.size \in {"lim-1", "lim"} -> FALSE
                    [] OTHER -> TRUE
